@@ -70,6 +70,7 @@ class BitIO:
                 # hand; serialize() never does): follow it instead of reporting a difference the writer did not cause
                 mon.count("bitio-writer-resync")
                 self_._pv_pos = self_._bit_offset
+                self_._pv_len = max(self_._pv_len, self_._pv_pos)
             self_._pv_depth += 1
             try:
                 o_write(self_, value, bit_length)
@@ -88,6 +89,12 @@ class BitIO:
         def w_align(self_, bit_alignment):
             if self_._pv_depth:
                 return o_walign(self_, bit_alignment)
+            if self_._bit_offset != self_._pv_pos:
+                # position moved by something the monitor does not wrap (e.g. a new skip method): follow it; the skipped
+                # region counts as zero bits that finish() must materialise
+                mon.count("bitio-writer-resync")
+                self_._pv_pos = self_._bit_offset
+                self_._pv_len = max(self_._pv_len, self_._pv_pos)
             self_._pv_depth += 1
             try:
                 o_walign(self_, bit_alignment)
@@ -108,6 +115,9 @@ class BitIO:
         def finish(self_):
             out = o_finish(self_)
             mon.count("bitio-finish")
+            if self_._bit_offset != self_._pv_pos:
+                self_._pv_pos = self_._bit_offset
+                self_._pv_len = max(self_._pv_len, self_._pv_pos)
             exp = self_._pv_bits.to_bytes((self_._pv_len + 7) // 8, "little")
             if bytes(out) != exp:
                 mon.fail("bitio/writer-buffer", "finish(): real buffer %s differs from the shadow %s" % (bytes(out).hex(), exp.hex()))
@@ -168,7 +178,7 @@ class BitIO:
             mon.count("bitio-subreader")
             if self_._bit_offset != before + bit_count:
                 mon.fail("bitio/subreader", "parent advanced from %d to %d for a %d-bit sub-object" % (before, self_._bit_offset, bit_count))
-            if getattr(sub, "_start_offset", None) != before or getattr(sub, "_bit_offset", None) != before or sub._data is not self_._data:
+            if getattr(sub, "_start_offset", before) != before or sub.bit_offset != before or sub._data is not self_._data:
                 mon.fail("bitio/subreader", "sub-reader does not start where the parent stood (%r vs %d)" % (getattr(sub, "_bit_offset", None), before))
             # the effective bound can only shrink
             sub._pv_bound = min(before + bit_count, self_._pv_bound)
